@@ -121,6 +121,13 @@ def _len(ex, args, kwargs, node):
   if v.kind == 'listref':
     from mmverif.engine import libcontracts
     return libcontracts.listref_len(ex, v)
+  if v.kind == 'eligtable':
+    # rows of a validated eligibility table are labelled by distinct geo IDs
+    # (GeoEligibility rejects duplicates), a .loc[list] selection has one
+    # row per requested label
+    if v.labels is not None:
+      return VInt(v.labels.length)
+    return VInt(cardlemmas.card(v.rows))
   ex.unsupported(node, 'len of %s' % v.kind)
 
 
